@@ -79,7 +79,7 @@ func ruleMirror(p *Program, r *Result) {
 	}
 	restart, _ := p.rootConst("AuthenStatusRestart")
 	found := false
-	for _, fn := range p.FuncsIn(func(path string) bool { return path == modPath }) {
+	for _, fn := range p.UnitsIn(func(path string) bool { return path == modPath }) {
 		if fn.Name() != "Reply" || fn.Signature.Recv() == nil || !implementsIface(derefT(fn.Signature.Recv().Type()), respI) {
 			continue
 		}
